@@ -44,6 +44,14 @@ var c09Shapes = []c09Shape{
 	{func(x string) string { return "SELECT \"from\", 'from' FROM " + x }, 1, "select-quoted-from"},
 	{func(x string) string { return "SELECT f(a), now() FROM " + x }, 1, "select-functions"},
 	{func(x string) string { return "SELECT * FROM " + x + " WHERE k IN (SELECT * FROM system.local)" }, 1, "select-trailing-from"},
+	// every clause that can follow the table name directly
+	{func(x string) string { return "SELECT peer FROM " + x + " GROUP BY peer" }, 1, "select-group-by"},
+	{func(x string) string { return "SELECT * FROM " + x + " PER PARTITION LIMIT 1" }, 1, "select-per-partition-limit"},
+	{func(x string) string { return "SELECT * FROM " + x + " ORDER BY key DESC" }, 1, "select-order-by"},
+	{func(x string) string { return "SELECT * FROM " + x + " LIMIT 1" }, 1, "select-limit"},
+	{func(x string) string { return "SELECT * FROM " + x + " ALLOW FILTERING" }, 1, "select-allow-filtering"},
+	{func(x string) string { return "SELECT * FROM " + x + " -- comment" }, 1, "select-then-comment"},
+	{func(x string) string { return "SELECT * FROM " + x + " /* c */ ;" }, 1, "select-then-block-comment"},
 	{func(x string) string { return "INSERT INTO " + x + " (key) VALUES ('x')" }, 0, "insert"},
 	{func(x string) string { return "UPDATE " + x + " SET a = 1 WHERE key = 'local'" }, 0, "update"},
 	{func(x string) string { return "DELETE FROM " + x + " WHERE key = 'local'" }, 0, "delete"},
@@ -141,7 +149,27 @@ func c09EndToEnd(ctx *Ctx) {
 			if err := cl.Startup(ver, ""); err != nil {
 				panic(err)
 			}
-			if cur != "" {
+			if cur != "" && ver == primitive.ProtocolVersion5 {
+				// the keyspace is established by a PREPARED USE (PREPARE, then EXECUTE), as some drivers do
+				_ = cl.Send(ver, 1, &message.Prepare{Query: "USE " + cur})
+				f, _ := cl.Next(5 * time.Second)
+				if f == nil || f.Opcode != byte(primitive.OpCodeResult) {
+					panic("PREPARE USE " + cur + " failed")
+				}
+				frm, err := cl.Decode(f)
+				if err != nil {
+					panic(err)
+				}
+				pr, ok := frm.Body.Message.(*message.PreparedResult)
+				if !ok {
+					panic("PREPARE USE: not a PREPARED result")
+				}
+				_ = cl.Send(ver, 1, &message.Execute{QueryId: pr.PreparedQueryId, ResultMetadataId: pr.ResultMetadataId, Options: &message.QueryOptions{}})
+				if f, _ := cl.Next(5 * time.Second); f == nil || f.Opcode != byte(primitive.OpCodeResult) {
+					panic("EXECUTE of the prepared USE " + cur + " failed")
+				}
+				ctx.Count("e2e:keyspace-set-by-a-prepared-USE")
+			} else if cur != "" {
 				_ = cl.Send(ver, 1, &message.Query{Query: "USE " + cur, Options: &message.QueryOptions{}})
 				if f, _ := cl.Next(5 * time.Second); f == nil || f.Opcode != byte(primitive.OpCodeResult) {
 					panic("USE " + cur + " failed")
